@@ -134,11 +134,12 @@ Section NsTools.
 
   Definition opt_ns_eqb (a : option nsid) (b : nsid) : bool := match a with Some x => N.eqb x b | None => false end.
 
-  (* attribute_name: mark the innermost entry whose default namespace is the attribute's namespace *)
+  (* attribute_name: mark EVERY entry whose default namespace is the attribute's namespace (the innermost such declaration may
+     itself be redundant) *)
   Fixpoint tracker_mark (stack : list tentry) (ns : nsid) : list tentry :=      (* innermost first *)
     match stack with
     | [] => []
-    | (d, used) :: rest => if opt_ns_eqb d ns then (d, true) :: rest else (d, used) :: tracker_mark rest ns
+    | (d, used) :: rest => (d, if opt_ns_eqb d ns then true else used) :: tracker_mark rest ns
     end.
 
   Definition tracker_push (stack : list tentry) (z : zipper) : list tentry :=
